@@ -16,9 +16,12 @@ import (
 // Families (n = number of elements / pairs of the literal first bound to a)
 //   arr-core   every history of <= 4 (thorough <= 5) core array operations on n = 9, of <= 3 (thorough <= 4) on n = 8
 //   arr-full   every history of <= 2 operations of the full array vocabulary on every n in {0,1,3,7,8,9,10,20};
-//              `b = a` followed by every history of <= 2 on n in {8,9,10,20}; thorough: every history of <= 3 on n in {8,9,10}
+//              `b = a` followed by every history of <= 2 on n in {8,9,10}; thorough: every history of <= 3 on n in {8,9,10}
 //   map-core   every history of <= 4 (thorough <= 5) core map operations on n = 5, of <= 3 (thorough <= 4) on n = 4
-//   map-full   as arr-full with n in {0,1,3,4,5,6,12}, {4,5,6,12} and {4,5,6}
+//   map-full   as arr-full with n in {0,1,3,4,5,6,12}, {4,5,6} and {4,5,6}
+//   map-plus   `+` on maps WITH A HISTORY: every history of <= 4 operations (n = 5; <= 3 on n = 4, <= 2 on n = 6; thorough one more) from
+//              grow by index assignment, shrink by del, a + {existing key}, a + {smaller key, existing key}, a + {}, {} + a,
+//              a = a + {new key}, and writes / deletes through the result — the left operand is observed after every step
 //   random     long histories (10..30 operations) over both vocabularies with the bindings permuted, literals of random
 //              size rebound in the middle, growth and shrinking across both thresholds in both directions
 
@@ -76,6 +79,8 @@ var arrOps = []string{
 	"func(){for i = 0:2 {b[i] = 70 + i}}()",
 	"b = m.k; b[0] = 1",
 	"func(){a[0] = 3}()",
+	"c = a + []",
+	"c = [] + a",
 }
 
 const arrCore = 9
@@ -103,9 +108,27 @@ var mapOps = []string{
 	"b = m.k; b.k = 1",
 	"func(){a.k = 3}()",
 	"b = a[0:4]",
+	"c = a + {}",
+	"c = {} + a",
+	"a[100] = 6",
+	"b = a + {-1:0,1:100}",
 }
 
 const mapCore = 8
+
+// `+` on maps with a history (spare capacity after growth by index assignment or after del), overlapping and
+// smaller keys, empty operands, followed by writes through the result: the operands must not change
+var mapPlusOps = []string{
+	"a[100] = 6",
+	"del(a[0])",
+	"b = a + {0:100}",
+	"b = a + {-1:0,1:100}",
+	"b = a + {}",
+	"b = {} + a",
+	"b[1] = 33",
+	"del(b[2])",
+	"a = a + {200:1}",
+}
 
 func valuesCase(texts []string) string {
 	hs := make([]string, len(texts))
@@ -147,6 +170,8 @@ func valuesGen(tier string, r *rng, emit func(string)) {
 		{"a = " + vsMapLit(4, 1), "b = a", "b.k = 99", "del(b[0])"},
 		{"a = " + vsArrLit(9, 1), "a = a + 10", "b = a + 11", "c = a + 12"},
 		{"a = " + vsArrLit(7, 1), "a = a + 10", "b = a + 11", "c = a + 12"},
+		{"k = {1:1,2:2,3:3,4:4,5:5}", "k[6] = 6", "j = k + {1:100,0:0}"},
+		{"big = {1:1,2:2,3:3,4:4,5:5,6:6}", "acc = {}", "acc = acc + big", "acc[1] = 42", "del(acc[2])", "cp = big + {}", "cp[3] = 33"},
 	} {
 		emit(valuesCase(h))
 	}
@@ -155,7 +180,7 @@ func valuesGen(tier string, r *rng, emit func(string)) {
 	for _, n := range arrSizes {
 		valuesExhaustive([]string{valuesPrelude, "a = " + vsArrLit(n, 1)}, arrOps, 2, emit)
 	}
-	for _, n := range []int{8, 9, 10, 20} {
+	for _, n := range []int{8, 9, 10} {
 		valuesExhaustive([]string{valuesPrelude, "a = " + vsArrLit(n, 1), "b = a"}, arrOps, 2, emit)
 	}
 	valuesExhaustive([]string{"a = " + vsMapLit(5, 1)}, mapOps[:mapCore], coreLen, emit)
@@ -163,9 +188,16 @@ func valuesGen(tier string, r *rng, emit func(string)) {
 	for _, n := range mapSizes {
 		valuesExhaustive([]string{valuesPrelude, "a = " + vsMapLit(n, 1)}, mapOps, 2, emit)
 	}
-	for _, n := range []int{4, 5, 6, 12} {
+	for _, n := range []int{4, 5, 6} {
 		valuesExhaustive([]string{valuesPrelude, "a = " + vsMapLit(n, 1), "b = a"}, mapOps, 2, emit)
 	}
+	plusLen := 4
+	if thorough {
+		plusLen = 5
+	}
+	valuesExhaustive([]string{"a = " + vsMapLit(5, 1)}, mapPlusOps, plusLen, emit)
+	valuesExhaustive([]string{"a = " + vsMapLit(4, 1)}, mapPlusOps, plusLen-1, emit)
+	valuesExhaustive([]string{"a = " + vsMapLit(6, 1)}, mapPlusOps, plusLen-2, emit)
 	if thorough {
 		for _, n := range []int{8, 9, 10} {
 			valuesExhaustive([]string{valuesPrelude, "a = " + vsArrLit(n, 1)}, arrOps, 3, emit)
@@ -175,9 +207,9 @@ func valuesGen(tier string, r *rng, emit func(string)) {
 		}
 	}
 	// random long histories
-	nr := 400
+	nr := 300
 	if thorough {
-		nr = 5000
+		nr = 3500
 	}
 	names := []string{"a", "b", "c"}
 	for i := 0; i < nr; i++ {
